@@ -129,6 +129,12 @@ BOTH_WAYS = [("rem", "I-7", "I3"), ("rem", "I-7", "I-3"), ("rem", "I7", "I-3"), 
              ("and", "I-1", "I255"), ("or", "I-8", "I1"), ("lt", "I-1", "B0"), ("eq", "I3", "F4008000000000000")]
 
 
+# ... and every (operator, left kind, right kind) triple on small operands: the kind of the result (the promotion table) must
+# not depend on who evaluates the expression (the compiler's constant folder has a table of its own)
+KIND_SAMPLE = {"I": "I6", "B": "B3", "Y": "Y2", "F": "F3ff8000000000000"}
+BOTH_WAYS += [(op, KIND_SAMPLE[k1], KIND_SAMPLE[k2]) for op in nc.BINOPS for k1 in "IBYF" for k2 in "IBYF"]
+
+
 def is_inline(i):
     if i < 2 * len(BOTH_WAYS):
         return i % 2 == 1
@@ -218,7 +224,7 @@ def run(ctx):
                                {"case": c, "build": build, "impl": got, "model": m, "correspondence": "T4 num (Num/NumImpl.v vs bytecode/src/variables/ops*)"},
                                found_input=False)
     # CLI
-    n_cli = 200 if ctx.quick() else 1500
+    n_cli = (2 * len(BOTH_WAYS) + 160) if ctx.quick() else 2500
     ccases = cli_cases(ctx, n_cli)
     cmodel = nc.run_model(ctx, ccases, shards=4)
     cli_cmp = cli_reject = 0
